@@ -19,8 +19,8 @@ pub fn meta() -> PropertyMeta {
     PropertyMeta {
         id: "C05",
         level: "fault_enumeration",
-        rule: "base messages of 1..6 units on a fixed tree (commands and queries with generated responses); for EVERY unit position i and EVERY failure kind the variant in which unit i fails is executed: handler-returned error (arbitrary standard / custom / extended), missing parameter (-109), surplus parameter (-108), type / range error of a typed pull, undefined header, non-ASCII byte in the header, non-ASCII byte in the data; plus EVERY response-buffer capacity below the full response length (formatter failure at every write). Oracle by construction: call log = units 0..i (the failing unit entered or not, as the kind dictates) each once in order, return value = the injected / expected error, error hook = exactly that error once; on success every handler once and no hook call. Evaluations count every executed variant. PLUS the whole-message differential from bytes (props/execdiff.rs): ALL byte strings up to length 6 (7) over a 16-symbol alphabet on the fixed tree and over the 19-symbol class alphabet on C01's tree, ALL strings of up to 7 (8) tokens, messages of 2^8 / 2^16 +- 1 units and of units with 2^8 / 2^16 +- 1 data elements, grammar-generated messages after 0..2 byte mutations, libFuzzer target c05_exec (thorough); every 'violation' verdict is run a second time with handlers that ignore the error of a parameter pull. The by-construction lexical faults are also run with such handlers. Non-trivial: a base message with at least 3 units (so that failures at positions >= 2 are exercised).",
-        assumptions: &["formatter failure is injected through ArrayVec<u8, CAP> capacities 0..=192 (a foreign Formatter cannot be implemented)"],
+        rule: "base messages of 1..6 units on a fixed tree (commands and queries with generated responses); for EVERY unit position i and EVERY failure kind the variant in which unit i fails is executed: handler-returned error (arbitrary standard / custom / extended), missing parameter (-109), surplus parameter (-108), type / range error of a typed pull, undefined header, non-ASCII byte in the header, non-ASCII byte in the data; plus EVERY response-buffer capacity below the full response length (formatter failure at every write), plus a foreign formatter that refuses message_start / each response_unit / message_end with an arbitrary error. Oracle by construction: call log = units 0..i (the failing unit entered or not, as the kind dictates) each once in order, return value = the injected / expected error, error hook = exactly that error once; on success every handler once and no hook call. Evaluations count every executed variant. PLUS the whole-message differential from bytes (props/execdiff.rs): ALL byte strings up to length 6 (7) over a 16-symbol alphabet on the fixed tree and over the 19-symbol class alphabet on C01's tree, ALL strings of up to 7 (8) tokens, messages of 2^8 / 2^16 +- 1 units and of units with 2^8 / 2^16 +- 1 data elements, grammar-generated messages after 0..2 byte mutations, libFuzzer target c05_exec (thorough); every 'violation' verdict is run a second time with handlers that ignore the error of a parameter pull. The by-construction lexical faults are also run with such handlers. Non-trivial: a base message with at least 3 units (so that failures at positions >= 2 are exercised).",
+        assumptions: &["write failures inside a response unit are injected through ArrayVec<u8, CAP> capacities 0..=192; failures of the three control calls (message_start, response_unit, message_end) through a foreign Formatter that wraps a Vec<u8>"],
         run,
     }
 }
@@ -61,6 +61,63 @@ impl<'a> CapVisitor for CapRun<'a> {
         let result = FIXTREE.run(self.bytes, &mut dev, &mut ctx, &mut resp);
         Outcome { result, calls: dev.calls.iter().map(|c| (c.leaf, c.query)).collect(), errors: dev.errors, resp_len: resp.len() }
     }
+}
+
+/// A foreign formatter: a `Vec<u8>` behind a wrapper that can refuse the three
+/// control calls (`message_start`, the n-th `response_unit`, `message_end`);
+/// the data of a unit are written straight to the inner buffer.
+struct FaultFmt {
+    inner: Vec<u8>,
+    fail_start: bool,
+    fail_end: bool,
+    fail_unit: Option<usize>,
+    units: usize,
+    err: Error,
+}
+
+impl scpi::parser::response::Formatter for FaultFmt {
+    fn push_str(&mut self, s: &[u8]) -> scpi::error::Result<()> {
+        self.inner.push_str(s)
+    }
+    fn push_byte(&mut self, b: u8) -> scpi::error::Result<()> {
+        self.inner.push_byte(b)
+    }
+    fn as_slice(&self) -> &[u8] {
+        scpi::parser::response::Formatter::as_slice(&self.inner)
+    }
+    fn clear(&mut self) {
+        scpi::parser::response::Formatter::clear(&mut self.inner)
+    }
+    fn len(&self) -> usize {
+        scpi::parser::response::Formatter::len(&self.inner)
+    }
+    fn message_start(&mut self) -> scpi::error::Result<()> {
+        if self.fail_start {
+            return Err(self.err);
+        }
+        self.inner.message_start()
+    }
+    fn message_end(&mut self) -> scpi::error::Result<()> {
+        if self.fail_end {
+            return Err(self.err);
+        }
+        self.inner.message_end()
+    }
+    fn response_unit(&mut self) -> scpi::error::Result<scpi::parser::response::ResponseUnit> {
+        let n = self.units;
+        self.units += 1;
+        if self.fail_unit == Some(n) {
+            return Err(self.err);
+        }
+        self.inner.response_unit()
+    }
+}
+
+fn run_fault_fmt(bytes: &[u8], plans: &[UnitPlan], mut fmt: FaultFmt) -> Outcome {
+    let mut dev = LogDev::with_plan(plans.to_vec());
+    let mut ctx = Context::default();
+    let result = FIXTREE.run(bytes, &mut dev, &mut ctx, &mut fmt);
+    Outcome { result, calls: dev.calls.iter().map(|c| (c.leaf, c.query)).collect(), errors: dev.errors, resp_len: fmt.inner.len() }
 }
 
 fn expect_calls(case: &Case, upto: usize) -> Vec<(usize, bool)> {
@@ -239,6 +296,34 @@ pub fn check(case: &Case, obs: &Obs) -> CheckResult {
             judge(&format!("buffer capacity {cap} of {full_len}"), &txt, &o, Err((-225, -225)), &expected_calls, &expected_calls)?;
             ensure!(o.resp_len <= cap, "capacity-exceeded", "{txt:?}: capacity {cap} but buffer holds {}", o.resp_len);
         }
+    }
+    // 9. a foreign formatter refusing message_start / the j-th response_unit / message_end
+    {
+        let err = case.inject.build();
+        let mk = || FaultFmt { inner: Vec::new(), fail_start: false, fail_end: false, fail_unit: None, units: 0, err };
+        let o = run_fault_fmt(&r.bytes, &case.plans, FaultFmt { fail_start: true, ..mk() });
+        runs += 1;
+        obs.label("fault: formatter refuses message_start");
+        judge("formatter refuses message_start", &txt, &o, Ok(err), &[], &[])?;
+        let queries: Vec<usize> = (0..k).filter(|i| case.msg.units[*i].header.query).collect();
+        for (j, ui) in queries.iter().enumerate() {
+            let o = run_fault_fmt(&r.bytes, &case.plans, FaultFmt { fail_unit: Some(j), ..mk() });
+            runs += 1;
+            obs.label("fault: formatter refuses a response unit");
+            let before = expect_calls(case, *ui);
+            judge(&format!("formatter refuses response unit {j} (message unit {ui})"), &txt, &o, Ok(err), &before, &before)?;
+        }
+        if full_len > 0 {
+            let o = run_fault_fmt(&r.bytes, &case.plans, FaultFmt { fail_end: true, ..mk() });
+            runs += 1;
+            obs.label("fault: formatter refuses message_end");
+            let all = expect_calls(case, k);
+            judge("formatter refuses message_end", &txt, &o, Ok(err), &all, &all)?;
+        }
+        // and the same wrapper refusing nothing behaves like the plain buffer
+        let o = run_fault_fmt(&r.bytes, &case.plans, mk());
+        runs += 1;
+        ensure!(o.result.is_ok() && o.errors.is_empty() && o.resp_len == full_len, "foreign-formatter", "{txt:?}: transparent wrapper formatter: result {:?}, {} hook calls, {} bytes (expected {full_len})", o.result, o.errors.len(), o.resp_len);
     }
     obs.executions(runs - 1);
     Ok(())
